@@ -494,7 +494,7 @@ func (g *Gen) aclCommand() []string {
 		}
 		return c
 	case 6, 7, 8:
-		pw := g.Pick([]string{"pw", "p1", "p2", "wrong", ""})
+		pw := g.Pick([]string{"pw", "p1", "p2", "wrong", "", shaHex("p1"), shaHex("pw")})
 		if g.Chance(0.4) {
 			return []string{"auth", pw}
 		}
